@@ -1,6 +1,6 @@
 (* The facts read from the CURRENT sources by tools/gen_Lossless.py
    (gen/GenLossless.v) are the ones model/Lossless.v is written from. *)
-From Coq Require Import List ZArith Lia.
+From Coq Require Import List ZArith Lia Bool.
 From LJT Require Import model.Lossless gen.GenLossless.
 Import ListNotations.
 Local Open Scope Z_scope.
@@ -41,3 +41,79 @@ Qed.
 Lemma gen_suspension_facts :
   gen_bitread_save_per_mcu = true /\ gen_suspend_returns_mcu_num = true /\ gen_resume_at_mcu_ctr = true.
 Proof. repeat split; reflexivity. Qed.
+
+(* ---- byte level and pixel formats ---- *)
+From LJT Require Import model.LosslessBytes model.LosslessPixels.
+
+(* the constants emit_bits / flush_bits / emit_restart of the model are written with *)
+Definition model_byte_consts : list Z := [24; 16; 255; 8; 255; 127; 7; JPEG_RST0; 7].
+
+(* slots (offsets) of a TurboJPEG pixel format: R, G, B and alpha when there is one;
+   TJPF_GRAY / TJPF_CMYK go through grayscale_convert / null_convert: component ci at inptr[ci] *)
+Definition slots_of (l : Z * Z * Z * Z * Z) : list nat :=
+  let '(r, g, b, a, ps) := l in
+  if r <? 0 then seq 0 (Z.to_nat ps) else map Z.to_nat (if a <? 0 then [r; g; b] else [r; g; b; a]).
+
+Definition nodup_nat (l : list nat) : bool :=
+  (fix go (l : list nat) : bool :=
+     match l with [] => true | x :: t => negb (existsb (Nat.eqb x) t) && go t end) l.
+
+(* per format: turbojpeg.h agrees with the jmorecfg.h tables of the colour space the
+   converters see, the offsets are distinct and below the pixel size *)
+Definition layout_ok (tj : Z * Z * Z * Z * Z) (jp : Z * Z * Z * Z) : bool :=
+  let '(r, g, b, a, ps) := tj in
+  let '(jr, jg, jb, jps) := jp in
+  if r <? 0 then (jr <? 0) && (1 <=? ps) && nodup_nat (slots_of tj) && forallb (fun o => (o <? Z.to_nat ps)%nat) (slots_of tj)
+  else (r =? jr) && (g =? jg) && (b =? jb) && (ps =? jps) &&
+       nodup_nat (slots_of tj) && forallb (fun o => (o <? Z.to_nat ps)%nat) (slots_of tj).
+
+Lemma nodup_nat_sound l : nodup_nat l = true -> NoDup l.
+Proof.
+  induction l as [|x t IH]; intros H; [constructor|]. cbn in H. apply andb_prop in H. destruct H as [H1 H2].
+  constructor; [|apply IH; exact H2]. intros Hin. apply negb_true_iff in H1.
+  assert (existsb (Nat.eqb x) t = true) by (apply existsb_exists; exists x; split; [exact Hin|apply Nat.eqb_refl]).
+  congruence.
+Qed.
+
+(* slots the DEcompressor stores: R, G, B and the slot jdcolor.c calls RGB_ALPHA (all
+   4-sample RGB formats, set to _MAXJSAMPLE) *)
+Definition dec_slots_of (l : Z * Z * Z * Z * Z) (alpha : Z) : list nat :=
+  let '(r, g, b, _, ps) := l in
+  if r <? 0 then seq 0 (Z.to_nat ps) else map Z.to_nat (if alpha <? 0 then [r; g; b] else [r; g; b; alpha]).
+Definition dec_alpha_ok (tj : Z * Z * Z * Z * Z) (alpha : Z) : bool :=
+  let '(r, g, b, a, ps) := tj in
+  ((a <? 0) || (a =? alpha)) && nodup_nat (dec_slots_of tj alpha) &&
+  forallb (fun o => (o <? Z.to_nat ps)%nat) (dec_slots_of tj alpha).
+
+Lemma gen_bytes_pixels_facts :
+  gen_byte_consts = model_byte_consts /\
+  length gen_tj_layout = 12%nat /\
+  forallb (fun p => layout_ok (fst p) (snd p)) (combine gen_tj_layout gen_jpeg_layout) = true /\
+  forallb (fun p => dec_alpha_ok (fst p) (snd p)) (combine gen_tj_layout gen_dec_alpha) = true.
+Proof. repeat split; reflexivity. Qed.
+
+(* consequence used by the layout theorem: every RGB-family format has distinct
+   offsets below its pixel size *)
+Lemma gen_layout_slots : forall tj, In tj gen_tj_layout ->
+  NoDup (slots_of tj) /\ Forall (fun o => (o < Z.to_nat (snd tj))%nat) (slots_of tj).
+Proof.
+  intros tj Hin. cbn in Hin.
+  repeat (destruct Hin as [<-|Hin]; [split; [apply nodup_nat_sound; reflexivity|repeat constructor]|]).
+  destruct Hin.
+Qed.
+
+From LJT Require Import proofs.LosslessPixelsProofs.
+
+(* every TurboJPEG pixel format, either row order, any pitch >= width * pixel size:
+   what tj3Decompress* stores in a packed buffer is what tj3Compress* reads from it *)
+Theorem tj_pixel_roundtrip : forall tj, In tj gen_tj_layout ->
+  forall bottomup w h pitch val buf i x k,
+  (w * Z.to_nat (snd tj) <= pitch)%nat -> (h * pitch <= length buf)%nat ->
+  (i < h)%nat -> (x < w)%nat -> (k < length (slots_of tj))%nat ->
+  gather bottomup h pitch (Z.to_nat (snd tj)) (slots_of tj)
+         (scatter bottomup w h pitch (Z.to_nat (snd tj)) (slots_of tj) val buf) k i x = val k i x.
+Proof.
+  intros tj Hin bottomup w h pitch val buf i x k Hp Hb Hi Hx Hk.
+  destruct (gen_layout_slots tj Hin) as [Hnd Hlt].
+  apply gather_scatter; assumption.
+Qed.
